@@ -180,9 +180,10 @@ func getInt64(p []byte) (int64, error) {
 	case 8:
 		return int64(binary.BigEndian.Uint64(p)), nil
 	case 4:
-		return int64(binary.BigEndian.Uint32(p)), nil
+		// int4 and int2 are signed on the wire
+		return int64(int32(binary.BigEndian.Uint32(p))), nil
 	case 2:
-		return int64(binary.BigEndian.Uint16(p)), nil
+		return int64(int16(binary.BigEndian.Uint16(p))), nil
 	default:
 		return 0, fmt.Errorf("cannot convert a slice of %d byte in an INTEGER parameter", len(p))
 	}
